@@ -6,16 +6,23 @@ transcribed line by line and tied to the C++ by the correspondence run of `check
 boxes, weights boxes, weights, kappa images, penalisation factors and images (no size bound).  `K` is any linearly ordered
 field (ℚ — the type the driver executes the quadratic prior at — and ℝ are instances).
 
+The model describes the code after the repairs C09-1..3 (PLS gradient: per-direction borders, kappa inside the divergence;
+Quadratic/RDP/log-cosh Hessian functions: a voxel is not its own neighbour, the centre weight contributes nothing).
+
 Hypotheses that occur:
 * `SymWeights wb w` — the weights array has a symmetric index range and `w(-d) = w(d)`.  True for the default weights
-  (`compute_weights`) and for the documented example `{{{0,1,0},{1,0,1},{0,1,0}}}`; NOT enforced by `set_weights` / the parser:
-  `C09_quadratic_expansion_asymmetric_weights_fails` is the negative witness.
-* `w 0 0 0 = 0` — zero centre weight (default weights: yes).  With a non-zero centre weight the Hessian functions add
-  `w(0) κ_r²` to the diagonal although the value does not depend on it: `C09_quadratic_expansion_nonzero_centre_fails`.
-Not covered by theorems (correspondence run + oracle only): PLSPrior; float rounding; the RDP derivative statements at
-points with equal neighbouring values (`C09_rdp_derivatives_at_equal_values`).
+  (`compute_weights`) and for the documented example `{{{0,1,0},{1,0,1},{0,1,0}}}`; NOT enforced by `set_weights` / the parser, and
+  for asymmetric user weights the code does NOT satisfy the property (known finding `weights:asymmetric-user-weights`):
+  `C09_quadratic_expansion_asymmetric_weights_fails`, `C09_quadratic_H_symmetric_asymmetric_weights_fails` are the negative
+  witnesses, and every theorem that needs `SymWeights` is named `…_partial`.
+* non-negative weights, kappa and penalisation factor for positive semi-definiteness (the domain of "penalty weights").
+No hypothesis on the centre weight `w 0 0 0` is needed any more (`C09_nonzero_centre_weight_is_covered`).
+PLSPrior: derivative of the value with respect to every single voxel (partial derivatives), scaling, uniform images.
+Not covered by theorems (correspondence run + oracle only): float rounding; the RDP derivative statements at
+points with equal neighbouring values (`C09_rdp_derivatives_at_equal_values`); PLS directional derivatives along arbitrary images.
 -/
 import StirVerif.C09.ProofsImage
+import StirVerif.C09.ProofsPls
 
 namespace StirVerif.C09
 
@@ -25,8 +32,9 @@ variable {K : Type} [Field K] [LinearOrder K] [IsStrictOrderedRing K]
 /-! ### "a single Hessian row equals the Hessian applied to the corresponding unit image" -/
 
 /-- `compute_Hessian(coords = c)` = `accumulate_Hessian_times_input(output = 0, input = unit image of c)`, for the shared loops of
-    the three neighbourhood priors (any `derivative_20`, any symmetric `derivative_11`), symmetric weights -/
-theorem C09_hessian_row_eq_H_unit (d20 d11 : K → K → K) (pf : K) (w : Img K) (κ : Option (Img K)) (b wb : Box) (cur : Img K)
+    the three neighbourhood priors (any `derivative_20`, any symmetric `derivative_11`), symmetric weights
+    Partial: `SymWeights` is assumed (the clause fails for asymmetric user weights, known finding `weights:asymmetric-user-weights`). -/
+theorem C09_hessian_row_eq_H_unit_partial (d20 d11 : K → K → K) (pf : K) (w : Img K) (κ : Option (Img K)) (b wb : Box) (cur : Img K)
     (hw : SymWeights wb w) (h11 : ∀ a c : K, d11 a c = d11 c a)
     (cz cy cx z y x : Int) (hc : InBox b cz cy cx) (hr : InBox b z y x) :
     hessRow d20 d11 pf w κ b wb cur cz cy cx z y x
@@ -34,45 +42,51 @@ theorem C09_hessian_row_eq_H_unit (d20 d11 : K → K → K) (pf : K) (w : Img K)
   rw [hessRow_eq_core, hessTimes_eq_core, zero_add]
   exact hessRow_eq_hessTimes_unit d20 d11 pf w κ b wb cur hw h11 cz cy cx z y x hc hr
 
-/-- … for `QuadraticPrior` -/
-theorem C09_quadratic_hessian_row_eq_H_unit (pf : K) (w : Img K) (κ : Option (Img K)) (b wb : Box) (cur : Img K)
+/-- … for `QuadraticPrior`
+    Partial: `SymWeights` is assumed (the clause fails for asymmetric user weights, known finding `weights:asymmetric-user-weights`). -/
+theorem C09_quadratic_hessian_row_eq_H_unit_partial (pf : K) (w : Img K) (κ : Option (Img K)) (b wb : Box) (cur : Img K)
     (hw : SymWeights wb w) (cz cy cx z y x : Int) (hc : InBox b cz cy cx) (hr : InBox b z y x) :
     qHessRow pf w κ b wb cur cz cy cx z y x = qHessTimes pf w κ b wb cur (unitImg cz cy cx) (fun _ _ _ => 0) z y x :=
-  C09_hessian_row_eq_H_unit qD20 qD11 pf w κ b wb cur hw (fun _ _ => rfl) cz cy cx z y x hc hr
+  C09_hessian_row_eq_H_unit_partial qD20 qD11 pf w κ b wb cur hw (fun _ _ => rfl) cz cy cx z y x hc hr
 
-/-- … for `RelativeDifferencePrior` -/
-theorem C09_rdp_hessian_row_eq_H_unit (γ ε pf : ℝ) (w : Img ℝ) (κ : Option (Img ℝ)) (b wb : Box) (cur : Img ℝ)
+/-- … for `RelativeDifferencePrior`
+    Partial: `SymWeights` is assumed (the clause fails for asymmetric user weights, known finding `weights:asymmetric-user-weights`). -/
+theorem C09_rdp_hessian_row_eq_H_unit_partial (γ ε pf : ℝ) (w : Img ℝ) (κ : Option (Img ℝ)) (b wb : Box) (cur : Img ℝ)
     (hw : SymWeights wb w) (cz cy cx z y x : Int) (hc : InBox b cz cy cx) (hr : InBox b z y x) :
     rHessRow γ ε pf w κ b wb cur cz cy cx z y x = rHessTimes γ ε pf w κ b wb cur (unitImg cz cy cx) (fun _ _ _ => 0) z y x :=
-  C09_hessian_row_eq_H_unit (rdpD20 γ ε) (rdpD11 γ ε) pf w κ b wb cur hw (rdpD11_comm γ ε) cz cy cx z y x hc hr
+  C09_hessian_row_eq_H_unit_partial (rdpD20 γ ε) (rdpD11 γ ε) pf w κ b wb cur hw (rdpD11_comm γ ε) cz cy cx z y x hc hr
 
-/-- … for `LogcoshPrior` -/
-theorem C09_logcosh_hessian_row_eq_H_unit (s pf : ℝ) (w : Img ℝ) (κ : Option (Img ℝ)) (b wb : Box) (cur : Img ℝ)
+/-- … for `LogcoshPrior`
+    Partial: `SymWeights` is assumed (the clause fails for asymmetric user weights, known finding `weights:asymmetric-user-weights`). -/
+theorem C09_logcosh_hessian_row_eq_H_unit_partial (s pf : ℝ) (w : Img ℝ) (κ : Option (Img ℝ)) (b wb : Box) (cur : Img ℝ)
     (hw : SymWeights wb w) (cz cy cx z y x : Int) (hc : InBox b cz cy cx) (hr : InBox b z y x) :
     lHessRow s pf w κ b wb cur cz cy cx z y x = lHessTimes s pf w κ b wb cur (unitImg cz cy cx) (fun _ _ _ => 0) z y x :=
-  C09_hessian_row_eq_H_unit (lcD20 s) (lcD11 s) pf w κ b wb cur hw (lcD11_comm s) cz cy cx z y x hc hr
+  C09_hessian_row_eq_H_unit_partial (lcD20 s) (lcD11 s) pf w κ b wb cur hw (lcD11_comm s) cz cy cx z y x hc hr
 
 /-! ### "The Hessian is symmetric" -/
 
-/-- `⟨u, H v⟩ = ⟨v, H u⟩` where `H v` is what `accumulate_Hessian_times_input` adds to its output -/
-theorem C09_H_symmetric (d20 d11 : K → K → K) (pf : K) (w : Img K) (κ : Option (Img K)) (b wb : Box) (cur u v : Img K)
+/-- `⟨u, H v⟩ = ⟨v, H u⟩` where `H v` is what `accumulate_Hessian_times_input` adds to its output
+    Partial: `SymWeights` is assumed (the clause fails for asymmetric user weights, known finding `weights:asymmetric-user-weights`). -/
+theorem C09_H_symmetric_partial (d20 d11 : K → K → K) (pf : K) (w : Img K) (κ : Option (Img K)) (b wb : Box) (cur u v : Img K)
     (hw : SymWeights wb w) (h11 : ∀ a c : K, d11 a c = d11 c a) :
     inner b u (hessTimesCore d20 d11 pf w κ b wb cur v) = inner b v (hessTimesCore d20 d11 pf w κ b wb cur u) :=
   H_symmetric d20 d11 pf w κ b wb cur u v hw fun _ _ _ _ => h11 _ _
 
-/-- the same statement on the API function (output initialised with 0) -/
-theorem C09_H_symmetric_api (d20 d11 : K → K → K) (pf : K) (w : Img K) (κ : Option (Img K)) (b wb : Box) (cur u v : Img K)
+/-- the same statement on the API function (output initialised with 0)
+    Partial: `SymWeights` is assumed (the clause fails for asymmetric user weights, known finding `weights:asymmetric-user-weights`). -/
+theorem C09_H_symmetric_api_partial (d20 d11 : K → K → K) (pf : K) (w : Img K) (κ : Option (Img K)) (b wb : Box) (cur u v : Img K)
     (hw : SymWeights wb w) (h11 : ∀ a c : K, d11 a c = d11 c a) :
     inner b u (hessTimes d20 d11 pf w κ b wb cur v fun _ _ _ => 0) = inner b v (hessTimes d20 d11 pf w κ b wb cur u fun _ _ _ => 0) := by
-  have h := C09_H_symmetric d20 d11 pf w κ b wb cur u v hw h11
+  have h := C09_H_symmetric_partial d20 d11 pf w κ b wb cur u v hw h11
   unfold inner at h ⊢
   simpa only [hessTimes_eq_core, zero_add] using h
 
 /-! ### "… and positive semi-definite for priors that declare themselves convex" -/
 
 /-- `⟨e, H e⟩ ≥ 0` for non-negative symmetric weights, non-negative kappa and penalisation factor whenever the 2×2 Hessians of the
-    potential are positive semi-definite at the image values -/
-theorem C09_H_psd (d20 d11 : K → K → K) (pf : K) (w : Img K) (κ : Option (Img K)) (b wb : Box) (cur e : Img K)
+    potential are positive semi-definite at the image values
+    Partial: `SymWeights` is assumed (the clause fails for asymmetric user weights, known finding `weights:asymmetric-user-weights`). -/
+theorem C09_H_psd_partial (d20 d11 : K → K → K) (pf : K) (w : Img K) (κ : Option (Img K)) (b wb : Box) (cur e : Img K)
     (hw : SymWeights wb w) (hw0 : ∀ dz dy dx, InBox wb dz dy dx → 0 ≤ w dz dy dx) (hκ : KappaNonneg b κ) (hpf : 0 ≤ pf)
     (h11 : ∀ a c : K, d11 a c = d11 c a)
     (hpsd : ∀ z y x z' y' x', InBox b z y x → InBox b z' y' x' → ∀ a c : K,
@@ -81,20 +95,22 @@ theorem C09_H_psd (d20 d11 : K → K → K) (pf : K) (w : Img K) (κ : Option (I
   H_psd d20 d11 pf w κ b wb cur e hw hw0 hκ hpf (fun _ _ _ _ => h11 _ _)
     fun _ _ hr hs a c => hpsd _ _ _ _ _ _ (mem_boxF.mp hr) (mem_boxF.mp hs) a c
 
-/-- `QuadraticPrior` (`is_convex() = true`): the Hessian is positive semi-definite -/
-theorem C09_quadratic_H_psd (pf : K) (w : Img K) (κ : Option (Img K)) (b wb : Box) (cur e : Img K)
+/-- `QuadraticPrior` (`is_convex() = true`): the Hessian is positive semi-definite
+    Partial: `SymWeights` is assumed (the clause fails for asymmetric user weights, known finding `weights:asymmetric-user-weights`). -/
+theorem C09_quadratic_H_psd_partial (pf : K) (w : Img K) (κ : Option (Img K)) (b wb : Box) (cur e : Img K)
     (hw : SymWeights wb w) (hw0 : ∀ dz dy dx, InBox wb dz dy dx → 0 ≤ w dz dy dx) (hκ : KappaNonneg b κ) (hpf : 0 ≤ pf) :
     0 ≤ inner b e (hessTimesCore qD20 qD11 pf w κ b wb cur e) := by
-  refine C09_H_psd qD20 qD11 pf w κ b wb cur e hw hw0 hκ hpf (fun _ _ => rfl) fun _ _ _ _ _ _ _ _ a c => ?_
+  refine C09_H_psd_partial qD20 qD11 pf w κ b wb cur e hw hw0 hκ hpf (fun _ _ => rfl) fun _ _ _ _ _ _ _ _ a c => ?_
   simp only [qD20, qD11]
   nlinarith [sq_nonneg (a - c)]
 
-/-- `RelativeDifferencePrior` (`is_convex() = true`), positive image, `γ, ε ≥ 0`: the Hessian is positive semi-definite -/
-theorem C09_rdp_H_psd (γ ε pf : ℝ) (w : Img ℝ) (κ : Option (Img ℝ)) (b wb : Box) (cur e : Img ℝ)
+/-- `RelativeDifferencePrior` (`is_convex() = true`), positive image, `γ, ε ≥ 0`: the Hessian is positive semi-definite
+    Partial: `SymWeights` is assumed (the clause fails for asymmetric user weights, known finding `weights:asymmetric-user-weights`). -/
+theorem C09_rdp_H_psd_partial (γ ε pf : ℝ) (w : Img ℝ) (κ : Option (Img ℝ)) (b wb : Box) (cur e : Img ℝ)
     (hw : SymWeights wb w) (hw0 : ∀ dz dy dx, InBox wb dz dy dx → 0 ≤ w dz dy dx) (hκ : KappaNonneg b κ) (hpf : 0 ≤ pf)
     (hγ : 0 ≤ γ) (hε : 0 ≤ ε) (hcur : ∀ z y x, InBox b z y x → 0 < cur z y x) :
     0 ≤ inner b e (hessTimesCore (rdpD20 γ ε) (rdpD11 γ ε) pf w κ b wb cur e) := by
-  refine C09_H_psd _ _ pf w κ b wb cur e hw hw0 hκ hpf (rdpD11_comm γ ε) fun z y x z' y' x' h h' a c => ?_
+  refine C09_H_psd_partial _ _ pf w κ b wb cur e hw hw0 hκ hpf (rdpD11_comm γ ε) fun z y x z' y' x' h h' a c => ?_
   have h1 := hcur _ _ _ h
   have h2 := hcur _ _ _ h'
   refine rdp_psd γ ε _ _ a c ?_ (Or.inl h1)
@@ -102,33 +118,36 @@ theorem C09_rdp_H_psd (γ ε pf : ℝ) (w : Img ℝ) (κ : Option (Img ℝ)) (b 
   have := mul_nonneg hγ (abs_nonneg (cur z y x - cur z' y' x'))
   linarith
 
-/-- `LogcoshPrior` (`is_convex() = true`): the Hessian is positive semi-definite -/
-theorem C09_logcosh_H_psd (s pf : ℝ) (w : Img ℝ) (κ : Option (Img ℝ)) (b wb : Box) (cur e : Img ℝ)
+/-- `LogcoshPrior` (`is_convex() = true`): the Hessian is positive semi-definite
+    Partial: `SymWeights` is assumed (the clause fails for asymmetric user weights, known finding `weights:asymmetric-user-weights`). -/
+theorem C09_logcosh_H_psd_partial (s pf : ℝ) (w : Img ℝ) (κ : Option (Img ℝ)) (b wb : Box) (cur e : Img ℝ)
     (hw : SymWeights wb w) (hw0 : ∀ dz dy dx, InBox wb dz dy dx → 0 ≤ w dz dy dx) (hκ : KappaNonneg b κ) (hpf : 0 ≤ pf) :
     0 ≤ inner b e (hessTimesCore (lcD20 s) (lcD11 s) pf w κ b wb cur e) :=
-  C09_H_psd _ _ pf w κ b wb cur e hw hw0 hκ hpf (lcD11_comm s) fun _ _ _ _ _ _ _ _ a c => lc_psd s _ _ a c
+  C09_H_psd_partial _ _ pf w κ b wb cur e hw hw0 hκ hpf (lcD11_comm s) fun _ _ _ _ _ _ _ _ a c => lc_psd s _ _ a c
 
 /-! ### "the gradient is the derivative of the value, the Hessian-times-vector is the directional derivative of the gradient" -/
 
 /-- QuadraticPrior, exact (no limit needed): `value(λ + t e) = value(λ) + t ⟨grad λ, e⟩ + t²/2 ⟨e, H e⟩` for symmetric weights
-    with zero centre.  So `grad` is the derivative of `value` and `H` its second derivative. -/
-theorem C09_quadratic_value_expansion (pf : K) (w : Img K) (κ : Option (Img K)) (b wb : Box) (lam e : Img K) (t : K)
-    (hw : SymWeights wb w) (hw0 : w 0 0 0 = 0) :
+    (any centre weight).  So `grad` is the derivative of `value` and `H` its second derivative.
+    Partial: needs `SymWeights` (false for asymmetric user weights, `C09_quadratic_expansion_asymmetric_weights_fails`). -/
+theorem C09_quadratic_value_expansion_partial (pf : K) (w : Img K) (κ : Option (Img K)) (b wb : Box) (lam e : Img K) (t : K)
+    (hw : SymWeights wb w) :
     qValue pf w κ b wb (fun z y x => lam z y x + t * e z y x)
       = qValue pf w κ b wb lam + t * inner b (qGrad pf w κ b wb lam) e
         + t ^ 2 / 2 * inner b e (qHessTimes pf w κ b wb lam e fun _ _ _ => 0) := by
-  have h := qValue_expansion pf w κ b wb lam e t hw hw0
+  have h := qValue_expansion pf w κ b wb lam e t hw
   simp only [qValue_eq_core]
   unfold inner at h ⊢
   simpa only [qGrad, qHessTimes, grad_eq_core, hessTimes_eq_core, zero_add] using h
 
-/-- QuadraticPrior: `grad(λ + t e) = grad(λ) + t · H e` at every voxel (zero centre weight; no symmetry needed) -/
+/-- QuadraticPrior: `grad(λ + t e) = grad(λ) + t · H e` at every voxel, for ALL weights (no symmetry, no condition on the centre):
+    the Hessian-times-vector is exactly the directional derivative of the gradient -/
 theorem C09_quadratic_gradient_affine (pf : K) (w : Img K) (κ : Option (Img K)) (b wb : Box) (lam e : Img K) (t : K)
-    (hw0 : w 0 0 0 = 0) (z y x : Int) :
+    (z y x : Int) :
     qGrad pf w κ b wb (fun z y x => lam z y x + t * e z y x) z y x
       = qGrad pf w κ b wb lam z y x + t * (qHessTimes pf w κ b wb lam e (fun _ _ _ => 0) z y x) := by
   simp only [qGrad, qHessTimes, grad_eq_core, hessTimes_eq_core, zero_add]
-  exact qGrad_linear pf w κ b wb lam e t hw0 z y x
+  exact qGrad_linear pf w κ b wb lam e t z y x
 
 end structural
 
@@ -160,8 +179,9 @@ theorem C09_logcosh_potential_convex (s x y a c : ℝ) :
   lc_psd s x y a c
 
 /-- **RDP: the gradient is the derivative of the value** along every line `λ + t e`, at every `t0` where neighbouring voxels have
-    different values and the denominators do not vanish (symmetric weights) -/
-theorem C09_rdp_gradient_is_derivative_of_value (γ ε pf : ℝ) (w : Img ℝ) (κ : Option (Img ℝ)) (b wb : Box) (lam e : Img ℝ) (t0 : ℝ)
+    different values and the denominators do not vanish (symmetric weights)
+    Partial: `SymWeights` is assumed (the clause fails for asymmetric user weights, known finding `weights:asymmetric-user-weights`). -/
+theorem C09_rdp_gradient_is_derivative_of_value_partial (γ ε pf : ℝ) (w : Img ℝ) (κ : Option (Img ℝ)) (b wb : Box) (lam e : Img ℝ) (t0 : ℝ)
     (hw : SymWeights wb w)
     (hne : ∀ z y x z' y' x', InBox b z y x → InBox b z' y' x' → ¬ (z = z' ∧ y = y' ∧ x = x') →
       lam z y x + t0 * e z y x ≠ lam z' y' x' + t0 * e z' y' x')
@@ -171,9 +191,9 @@ theorem C09_rdp_gradient_is_derivative_of_value (γ ε pf : ℝ) (w : Img ℝ) (
       (inner b (rGrad γ ε pf w κ b wb (fun z y x => lam z y x + t0 * e z y x)) e) t0 :=
   rdp_gradient_is_derivative_of_value γ ε pf w κ b wb lam e t0 hw hne hD
 
-/-- **RDP: the Hessian-times-vector is the directional derivative of the gradient** (same conditions; zero centre weight) -/
+/-- **RDP: the Hessian-times-vector is the directional derivative of the gradient** (same conditions on the image; ALL weights) -/
 theorem C09_rdp_hessian_is_derivative_of_gradient (γ ε pf : ℝ) (w : Img ℝ) (κ : Option (Img ℝ)) (b wb : Box) (lam v : Img ℝ) (t0 : ℝ)
-    (hw0 : w 0 0 0 = 0) (z y x : Int) (hr : InBox b z y x)
+    (z y x : Int) (hr : InBox b z y x)
     (hne : ∀ z y x z' y' x', InBox b z y x → InBox b z' y' x' → ¬ (z = z' ∧ y = y' ∧ x = x') →
       lam z y x + t0 * v z y x ≠ lam z' y' x' + t0 * v z' y' x')
     (hD : ∀ z y x z' y' x', InBox b z y x → InBox b z' y' x' →
@@ -181,22 +201,23 @@ theorem C09_rdp_hessian_is_derivative_of_gradient (γ ε pf : ℝ) (w : Img ℝ)
     (hpos : ∀ z y x, InBox b z y x → 0 < lam z y x + t0 * v z y x) :
     HasDerivAt (fun t => gradCore (rdpD10 γ ε) pf w κ b wb (fun z y x => lam z y x + t * v z y x) z y x)
       (hessTimesCore (rdpD20 γ ε) (rdpD11 γ ε) pf w κ b wb (fun z y x => lam z y x + t0 * v z y x) v z y x) t0 :=
-  grad_hasDerivAt (rdpD10 γ ε) (rdpD20 γ ε) (rdpD11 γ ε) pf w κ b wb lam v t0 hw0 z y x hr fun r s hr hs _ hrs =>
+  grad_hasDerivAt (rdpD10 γ ε) (rdpD20 γ ε) (rdpD11 γ ε) pf w κ b wb lam v t0 (rdpD10_self γ ε) z y x hr fun r s hr hs _ hrs =>
     rdp_d10_line γ ε (lam.at r) (lam.at s) (v.at r) (v.at s) t0
       (hne _ _ _ _ _ _ (mem_boxF.mp hr) (mem_boxF.mp hs) fun h => hrs (by ext <;> simp [h.1, h.2.1, h.2.2]))
       (hD _ _ _ _ _ _ (mem_boxF.mp hr) (mem_boxF.mp hs)) (Or.inl (hpos _ _ _ (mem_boxF.mp hr)))
 
-/-- **log-cosh: the Hessian-times-vector is the directional derivative of the gradient** (zero centre weight) -/
+/-- **log-cosh: the Hessian-times-vector is the directional derivative of the gradient** (ALL weights) -/
 theorem C09_logcosh_hessian_is_derivative_of_gradient (s pf : ℝ) (w : Img ℝ) (κ : Option (Img ℝ)) (b wb : Box) (lam v : Img ℝ) (t0 : ℝ)
-    (hs : s ≠ 0) (hw0 : w 0 0 0 = 0) (z y x : Int) (hr : InBox b z y x) :
+    (hs : s ≠ 0) (z y x : Int) (hr : InBox b z y x) :
     HasDerivAt (fun t => gradCore (lcD10 s) pf w κ b wb (fun z y x => lam z y x + t * v z y x) z y x)
       (hessTimesCore (lcD20 s) (lcD11 s) pf w κ b wb (fun z y x => lam z y x + t0 * v z y x) v z y x) t0 :=
-  grad_hasDerivAt (lcD10 s) (lcD20 s) (lcD11 s) pf w κ b wb lam v t0 hw0 z y x hr fun r s' _ _ _ _ =>
+  grad_hasDerivAt (lcD10 s) (lcD20 s) (lcD11 s) pf w κ b wb lam v t0 (lcD10_self s) z y x hr fun r s' _ _ _ _ =>
     lc_d10_line s (lam.at r) (lam.at s') (v.at r) (v.at s') t0 hs
 
 /-- **log-cosh: the gradient is the derivative of the value** along every line, where all neighbour differences are on the branch
-    `|s Δ| < 30` of `logcosh` (symmetric weights) -/
-theorem C09_logcosh_gradient_is_derivative_of_value (s pf : ℝ) (w : Img ℝ) (κ : Option (Img ℝ)) (b wb : Box) (lam e : Img ℝ) (t0 : ℝ)
+    `|s Δ| < 30` of `logcosh` (symmetric weights)
+    Partial: `SymWeights` is assumed (the clause fails for asymmetric user weights, known finding `weights:asymmetric-user-weights`). -/
+theorem C09_logcosh_gradient_is_derivative_of_value_partial (s pf : ℝ) (w : Img ℝ) (κ : Option (Img ℝ)) (b wb : Box) (lam e : Img ℝ) (t0 : ℝ)
     (hs : s ≠ 0) (hw : SymWeights wb w)
     (hbr : ∀ z y x z' y' x', InBox b z y x → InBox b z' y' x' →
       |s * ((lam z y x + t0 * e z y x) - (lam z' y' x' + t0 * e z' y' x'))| < 30) :
@@ -219,6 +240,20 @@ theorem C09_linear_in_penalisation_factor (d10 d20 d11 : K → K → K) (c pf : 
   simp only [qValue_eq_core, grad_eq_core, hessRow_eq_core, hessTimes_eq_core, zero_add]
   exact ⟨qValueCore_scale c pf w κ b wb img, gradCore_scale d10 c pf w κ b wb img z y x,
     hessRowCore_scale d20 d11 c pf w κ b wb img cz cy cx z y x, hessTimesCore_scale d20 d11 c pf w κ b wb img inp z y x⟩
+
+/-- … and so do the values of `RelativeDifferencePrior` and `LogcoshPrior` (their gradients and Hessians are the generic loops above) -/
+theorem C09_rdp_logcosh_value_linear_in_penalisation_factor (γ ε s c pf : ℝ) (w : Img ℝ) (κ : Option (Img ℝ)) (b wb : Box) (img : Img ℝ) :
+    rValue γ ε (c * pf) w κ b wb img = c * rValue γ ε pf w κ b wb img
+    ∧ lValue s (c * pf) w κ b wb img = c * lValue s pf w κ b wb img := by
+  unfold rValue lValue
+  by_cases hpf : pf = 0
+  · simp [hpf]
+  · by_cases hc : c = 0
+    · simp [hc]
+    · have h1 : (c * pf == 0) = false := by simpa using mul_ne_zero hc hpf
+      have h2 : (pf == 0) = false := by simpa using hpf
+      simp only [h1, h2, Bool.false_eq_true, if_false]
+      constructor <;> ring
 
 /-- the early returns `if (penalisation_factor == 0)` agree with the loops (which would compute `… * 0`) -/
 theorem C09_zero_penalisation_shortcuts (d10 d20 d11 : K → K → K) (pf : K) (w : Img K) (κ : Option (Img K)) (b wb : Box)
@@ -305,7 +340,7 @@ def nB : Box := ⟨0, 0, 0, 0, 0, 1⟩
 def nWB : Box := ⟨0, 0, 0, 0, -1, 1⟩
 /-- only the forward neighbour has a weight: asymmetric -/
 def nWasym : Img ℚ := fun _ _ dx => if dx = 1 then 1 else 0
-/-- symmetric, but non-zero centre weight -/
+/-- symmetric, with a non-zero centre weight -/
 def nWcentre : Img ℚ := fun _ _ dx => if dx = 0 then 2 else 1
 def nLam : Img ℚ := fun _ _ x => if x = 0 then 3 else 1
 def nE : Img ℚ := fun _ _ x => if x = 0 then 1 else 0
@@ -313,7 +348,7 @@ def nE : Img ℚ := fun _ _ x => if x = 0 then 1 else 0
 theorem irange_eval : irange 0 0 = [0] ∧ irange 0 1 = [0, 1] ∧ irange (-1) 0 = [-1, 0] ∧ irange (-1) 1 = [-1, 0, 1] := by decide
 
 /-- with asymmetric user weights the gradient of `QuadraticPrior` is NOT the derivative of its value: the second-order expansion
-    (exact for symmetric weights, `C09_quadratic_value_expansion`) fails: 9/4 ≠ 1 + 2 + 1/2 -/
+    (exact for symmetric weights, `C09_quadratic_value_expansion_partial`) fails: 9/4 ≠ 1 + 2 + 1/2 -/
 theorem C09_quadratic_expansion_asymmetric_weights_fails :
     ¬ (qValue 1 nWasym none nB nWB (fun z y x => nLam z y x + 1 * nE z y x)
         = qValue 1 nWasym none nB nWB nLam + 1 * inner nB (qGrad 1 nWasym none nB nWB nLam) nE
@@ -343,26 +378,19 @@ theorem C09_quadratic_H_symmetric_asymmetric_weights_fails :
     simp [inner, qHessTimes, hessTimes, hessTimesCore, voxSum, nbSum, sumRange, nB, nWB, r00, r01, rm10, qD20, qD11, kfac, nWasym, unitImg]
   rw [a, c]; norm_num
 
-/-- with a non-zero centre weight the Hessian functions of `QuadraticPrior` are not the second derivative of the value:
-    the expansion fails, 9/2 ≠ 2 + 2 + 3/2 -/
-theorem C09_quadratic_expansion_nonzero_centre_fails :
-    ¬ (qValue 1 nWcentre none nB nWB (fun z y x => nLam z y x + 1 * nE z y x)
+/-- a non-zero centre weight is covered by the theorems (before repair C09-3 the Hessian functions added `w(0) κ_r²` to the diagonal
+    and the expansion failed, 9/2 ≠ 2 + 2 + 3/2): `nWcentre` is symmetric with centre weight 2, and the expansion holds for it -/
+theorem C09_nonzero_centre_weight_is_covered :
+    SymWeights nWB nWcentre ∧ nWcentre 0 0 0 = 2
+    ∧ qValue 1 nWcentre none nB nWB (fun z y x => nLam z y x + 1 * nE z y x)
         = qValue 1 nWcentre none nB nWB nLam + 1 * inner nB (qGrad 1 nWcentre none nB nWB nLam) nE
-          + 1 ^ 2 / 2 * inner nB nE (qHessTimes 1 nWcentre none nB nWB nLam nE fun _ _ _ => 0)) := by
-  obtain ⟨r00, r01, rm10, rm11⟩ := irange_eval
-  have v1 : qValue 1 nWcentre none nB nWB (fun z y x => nLam z y x + 1 * nE z y x) = 9 / 2 := by
-    simp [qValue, qValueCore, valueSum, voxSum, nbSum, sumRange, nB, nWB, r00, r01, rm10, qTerm, sq, four, kfac, nWcentre, nLam, nE]
-    norm_num
-  have v0 : qValue 1 nWcentre none nB nWB nLam = 2 := by
-    simp [qValue, qValueCore, valueSum, voxSum, nbSum, sumRange, nB, nWB, r00, r01, rm10, qTerm, sq, four, kfac, nWcentre, nLam]
-    norm_num
-  have g : inner nB (qGrad 1 nWcentre none nB nWB nLam) nE = 2 := by
-    simp [inner, qGrad, grad, gradCore, voxSum, nbSum, sumRange, nB, nWB, r00, r01, rm10, qD10, kfac, nWcentre, nLam, nE]
-    norm_num
-  have hh : inner nB nE (qHessTimes 1 nWcentre none nB nWB nLam nE fun _ _ _ => 0) = 3 := by
-    simp [inner, qHessTimes, hessTimes, hessTimesCore, voxSum, nbSum, sumRange, nB, nWB, r00, r01, rm10, qD20, qD11, kfac, nWcentre, nE]
-    norm_num
-  rw [v1, v0, g, hh]; norm_num
+          + 1 ^ 2 / 2 * inner nB nE (qHessTimes 1 nWcentre none nB nWB nLam nE fun _ _ _ => 0) := by
+  have hs : SymWeights nWB nWcentre := by
+    refine ⟨by decide, fun dz dy dx _ => ?_⟩
+    unfold nWcentre
+    have : (-dx = 0) ↔ (dx = 0) := by omega
+    simp only [this]
+  exact ⟨hs, by simp [nWcentre], C09_quadratic_value_expansion_partial 1 nWcentre none nB nWB nLam nE 1 hs⟩
 
 /-! ### clauses that are stated but NOT proved -/
 
@@ -372,14 +400,39 @@ def C09_rdp_derivatives_at_equal_values : Prop :=
   ∀ γ ε x : ℝ, 0 < rdpDen γ ε x x → (0 < x ∨ 0 < ε) →
     HasDerivAt (fun t => two * rdpPsi γ ε t x) (rdpD10 γ ε x x) x ∧ HasDerivAt (fun t => rdpD10 γ ε t x) (rdpD20 γ ε x x) x
 
-/-- PLSPrior: for strictly interior voxels and spatially uniform kappa the gradient is the derivative of the value.
-    Not proved (the model of PLS is only executed, at `Float`); checked by the oracle with central differences.  At border voxels
-    and for non-uniform kappa the statement is FALSE for the code (known-candidate keys `pls:…`). -/
-def C09_pls_gradient_is_derivative_of_value_interior : Prop :=
-  ∀ (only2D : Bool) (α η pf : ℝ) (b : Box) (anat lam : Img ℝ) (z y x : Int),
-    0 < α → b.z0 < z ∧ z < b.z1 ∧ b.y0 < y ∧ y < b.y1 ∧ b.x0 < x ∧ x < b.x1 →
-    HasDerivAt (fun t => plsValue only2D α pf (plsSetUp only2D η b anat) none b
+/-! ### PLSPrior (the code after the repairs C09-1, C09-2) -/
+
+/-- **PLS: the gradient is the derivative of the value** with respect to EVERY single voxel `(z,y,x)` of the image (border voxels
+    included), for every kappa image, `only_2D` or not, any anatomical image (prepared as `set_up` does) and `alpha ≠ 0`:
+    the partial derivative at `t = 0` of `compute_value(λ + t·unit)` is the entry of `compute_gradient(λ)`.
+    (Partial derivatives only: the statement along arbitrary directions follows as the value is differentiable, not proved here.) -/
+theorem C09_pls_gradient_is_derivative_of_value (only2D : Bool) (α η pf : ℝ) (b : Box) (κ : Option (Img ℝ)) (anat lam : Img ℝ)
+    (z y x : Int) (hα : α ≠ 0) (hr : InBox b z y x) :
+    HasDerivAt (fun t => plsValue only2D α pf (plsSetUp only2D η b anat) κ b
         (fun z' y' x' => lam z' y' x' + if z' = z ∧ y' = y ∧ x' = x then t else 0))
-      (plsGrad only2D α pf (plsSetUp only2D η b anat) none b lam z y x) 0
+      (plsGrad only2D α pf (plsSetUp only2D η b anat) κ b lam z y x) 0 :=
+  pls_gradient_is_derivative_of_value only2D α η pf b κ anat lam z y x hα hr
+
+/-- PLS: value and gradient scale linearly with the penalisation factor -/
+theorem C09_pls_linear_in_penalisation_factor (only2D : Bool) (α c pf : ℝ) (A : PlsAnat ℝ) (κ : Option (Img ℝ)) (b : Box)
+    (img : Img ℝ) (z y x : Int) :
+    plsValue only2D α (c * pf) A κ b img = c * plsValue only2D α pf A κ b img
+    ∧ plsGrad only2D α (c * pf) A κ b img z y x = c * plsGrad only2D α pf A κ b img z y x :=
+  pls_scale only2D α c pf A κ b img z y x
+
+/-- PLS: the gradient vanishes for uniform images -/
+theorem C09_pls_grad_uniform_zero (only2D : Bool) (α pf c : ℝ) (A : PlsAnat ℝ) (κ : Option (Img ℝ)) (b : Box) (z y x : Int) :
+    plsGrad only2D α pf A κ b (fun _ _ _ => c) z y x = 0 :=
+  pls_grad_uniform only2D α pf c A κ b z y x
+
+/-- PLS: border voxels use only neighbours inside the image — the forward difference towards a voxel outside the image is 0 -/
+theorem C09_pls_border_difference_zero (b : Box) (img : Img ℝ) (z y x : Int) :
+    (z + 1 > b.z1 → plsGradElem b 0 img z y x = 0) ∧ (y + 1 > b.y1 → plsGradElem b 1 img z y x = 0)
+    ∧ (x + 1 > b.x1 → plsGradElem b 2 img z y x = 0) :=
+  ⟨plsGradElem_last_z b img z y x, plsGradElem_last_y b img z y x, plsGradElem_last_x b img z y x⟩
+
+/-- the hypotheses of the PLS theorem are satisfiable: a corner voxel of a 2×3×4 image, `alpha = 1` -/
+example : (1 : ℝ) ≠ 0 ∧ InBox ⟨0, 1, 0, 2, 0, 3⟩ 0 0 0 ∧ InBox ⟨0, 1, 0, 2, 0, 3⟩ 1 2 3 := by
+  refine ⟨one_ne_zero, by decide, by decide⟩
 
 end StirVerif.C09
